@@ -27,7 +27,7 @@ def it_advance(it):
     return (it & 0xE0) | ((it << 1) & 0x1F)
 
 
-def pre_state(arm, cfg, align=False):
+def pre_state(arm, cfg, align=False, stage2=False):
     """collect the inputs of the model from a real instance (values only)"""
     r = arm.registers
     sct = r.sctlr.value
@@ -37,7 +37,7 @@ def pre_state(arm, cfg, align=False):
         'cpsr': r.cpsr.value, 'pc': r.pc_store_value(), 'scr': r.scr.value, 'hcr': r.hcr.value,
         'V': (sct >> 13) & 1, 'VE': (sct >> 24) & 1, 'TE': (sct >> 30) & 1, 'EE': (sct >> 25) & 1,
         'HTE': (hs >> 30) & 1, 'HEE': (hs >> 25) & 1,
-        'vbar': r.vbar.value, 'mvbar': r.mvbar, 'hvbar': r.hvbar, 'align': bool(align),
+        'vbar': r.vbar.value, 'mvbar': r.mvbar, 'hvbar': r.hvbar, 'align': bool(align), 'stage2': bool(stage2),
         'irq_vec': cfg.get('impdef_irq_vector', 24), 'fiq_vec': cfg.get('impdef_fiq_vector', 28),
         'vbar_reset': int(cfg.get('reset_values', {}).get('VBAR', '0'), 0),
         'impdef_reset': cfg.get('impdef_reset_vector', 0) if cfg.get('has_imp_def_reset_vector') else None,
@@ -133,8 +133,8 @@ def entry(kind, s):
         # external aborts / debug exceptions are not modelled (armulator mocks them as absent)
         if take_to_hyp:
             return hyp(ret, 16)
-        if virt and sec and (not is_secure) and m == USR and tge and s['align']:
-            return hyp(ret, 20)
+        if virt and sec and (not is_secure) and (s.get('stage2') or (m == USR and tge and s['align'])):
+            return hyp(ret, 20)          # second-stage aborts and TGE-routed alignment faults: Hyp Trap vector
         return normal(ABT, lr, 16, set_a=True)
     if kind == 'irq':
         lr = (rd if T else rd - 4) & M32
